@@ -1,22 +1,31 @@
 #!/bin/bash
-# usage: tools/confirm_mutant.sh <Cxx-or-name> <worktree> <outdir>
-# In the agent's scratch worktree (source change + demo test applied, uncommitted):
-#  1. suite with change + demo: every pre-existing test passes, only demo test(s) fail;
-#  2. source change reverted (demo kept): everything passes.
-# Writes <outdir>/confirm.json
+# usage: tools/confirm_mutant.sh <id> <worktree> <outdir>
+# In the agent's scratch worktree (demo test applied, uncommitted).  The source change is taken from
+# <outdir>/patch.diff (non-test files only) — NOT from the worktree state, and `git stash` is never used
+# (the stash is shared by all worktrees of a repository).
+#  1. source files of the patch reset to HEAD, patch applied: suite with change + demo → every pre-existing test
+#     passes, only demo test(s) fail;
+#  2. patch reversed (demo kept): everything passes.
 id=$1; wt=$2; out=$3
 cd $wt || exit 2
 export CARGO_NET_OFFLINE=true
-# tracked, non-test source files that differ from HEAD = the mutation
-src=$(git diff --name-only | grep -v "/tests/" | grep -v "tests.rs$" | grep -v "/tests/mod.rs" | grep "^contracts/.*/src/" | grep -v "src/tests")
-echo "mutation files: $src"
+python3 - "$out/patch.diff" > $out/_src.diff <<'PY'
+import sys,re
+txt=open(sys.argv[1]).read()
+for p in re.split(r'(?m)^(?=diff --git )',txt):
+    m=re.match(r'diff --git a/(\S+)',p)
+    if m and '/tests/' not in m.group(1) and 'src/tests' not in m.group(1): sys.stdout.write(p)
+PY
+files=$(grep '^diff --git' $out/_src.diff | sed 's#diff --git a/\(\S*\) .*#\1#')
+git checkout -- $files
+git apply $out/_src.diff || { echo "patch does not apply"; exit 2; }
 cargo test --workspace --no-fail-fast --offline > $out/confirm_with_change.log 2>&1
 p1=$(grep -E "^test result" $out/confirm_with_change.log | awk '{p+=$4; f+=$6} END {print p" "f}')
-failed1=$(grep -E "^test .* FAILED|^    [a-z_:]+$" $out/confirm_with_change.log | grep FAILED | sed 's/^test //; s/ \.\.\. FAILED//' | sort -u | tr '\n' ' ')
-git stash push -q -- $src
+failed1=$(grep -E "^test .* \.\.\. FAILED" $out/confirm_with_change.log | sed 's/^test //; s/ \.\.\. FAILED//' | sort -u | tr '\n' ' ')
+git apply -R $out/_src.diff
 cargo test --workspace --no-fail-fast --offline > $out/confirm_without_change.log 2>&1
 p2=$(grep -E "^test result" $out/confirm_without_change.log | awk '{p+=$4; f+=$6} END {print p" "f}')
-git stash pop -q
+git apply $out/_src.diff
 python3 - "$id" "$p1" "$failed1" "$p2" "$out" <<'PY'
 import sys,json
 id,p1,failed1,p2,out=sys.argv[1:6]
